@@ -55,7 +55,7 @@ class Sched:
 
     def _local_trace(self, frame, event, arg):
         if event == "line" or event == "opcode":
-            self.where = (frame.f_code.co_filename[len(self.libdir):], frame.f_lineno)
+            self.where = (frame.f_code.co_filename[len(self.libdir):], frame.f_lineno, frame.f_code.co_qualname)
             self.yield_point()
         return self._local_trace
 
@@ -103,7 +103,10 @@ class Sched:
                 lock.count += 1
                 return True
             raise simlock.WouldBlock(lock)
-        self.where = ("lock.acquire", lock.lid)
+        f = sys._getframe(1)
+        while f is not None and not f.f_code.co_filename.startswith(self.libdir):
+            f = f.f_back
+        self.where = ("lock.acquire", lock.lid, (f.f_code.co_qualname if f is not None else "?") + ":lock")
         self.yield_point()
         while lock.owner is not None and lock.owner != me.tid:
             if not blocking:
